@@ -2228,6 +2228,75 @@ Proof.
 Qed.
 End ERIScale.
 
+
+(* ------------------------------------------------------------------ *)
+(* two-index assembly (base_two_symm / base_two_asymm), Cartesian shells: the processed block of two
+   generalized shells is the matrix of the processed blocks of their single-column shells, tiles in
+   segment-major order on both sides (row (ma, ia), inside the row the tiles mb = 0, 1, ..) *)
+(* ------------------------------------------------------------------ *)
+Lemma flatten_block_mk4 M1 L1 M2 L2 (f : nat -> nat -> nat -> nat -> F) :
+  flatten_block (mk4 M1 L1 M2 L2 f)
+  = concat (mk M1 (fun m1 => mk L1 (fun c1 => concat (mk M2 (fun m2 => mk L2 (fun c2 => f m1 c1 m2 c2)))))).
+Proof.
+  unfold flatten_block, mk4. rewrite flat_map_concat_map, map_mk'. f_equal. apply mk_ext. intros m1 _.
+  now rewrite map_mk'.
+Qed.
+
+Lemma ncget_col_shell s m c : m < nseg s -> ncget (norm_cont K (col_shell s m)) 0 c = ncget (norm_cont K s) m c.
+Proof. intros Hm. unfold ncget. now rewrite (norm_cont_col_shell s m Hm). Qed.
+
+Lemma nentry_col g sa sb ma ia mb ib : ma < nseg sa -> mb < nseg sb ->
+  nentry g (col_shell sa ma) (col_shell sb mb) 0 ia 0 ib = nentry g sa sb ma ia mb ib.
+Proof.
+  intros Hma Hmb. unfold nentry. rewrite (ncget_col_shell sa ma ia Hma), (ncget_col_shell sb mb ib Hmb).
+  now rewrite kentry_col.
+Qed.
+
+Section TwoIndexCart.
+(* a kernel that reads only the frames of the two shells (overlap, moments, differential operators, ...) *)
+Variable G : shell F -> shell F -> F -> F -> comp -> comp -> F.
+Definition kblockf (s1 s2 : shell F) : list (list (list (list F))) := kblock (G s1 s2) s1 s2.
+
+Lemma pblock_cart_form sa sb : s_sph sa = false -> s_sph sb = false ->
+  pblock K 0 (fadd K) (fmul K) kblockf (prep K sa) (prep K sb)
+  = flatten_block (nblock (G sa sb) sa sb).
+Proof.
+  intros Ha Hb. unfold pblock, prep, shell_block, kblockf. cbn [p_shell p_norm p_T]. cbv zeta.
+  rewrite Ha, Hb. reflexivity.
+Qed.
+
+Theorem pblock_segment_major_cart sa sb :
+  s_sph sa = false -> s_sph sb = false ->
+  (forall ma mb, G (col_shell sa ma) (col_shell sb mb) = G sa sb) ->
+  pblock K 0 (fadd K) (fmul K) kblockf (prep K sa) (prep K sb)
+  = concat (mk (nseg sa) (fun ma => mk (ncomp sa) (fun ia => concat (mk (nseg sb) (fun mb =>
+      nth ia (pblock K 0 (fadd K) (fmul K) kblockf (prep K (col_shell sa ma)) (prep K (col_shell sb mb))) []))))).
+Proof.
+  intros Ha Hb HG. rewrite (pblock_cart_form sa sb Ha Hb), nblock_form, flatten_block_mk4.
+  f_equal. apply mk_ext. intros ma Hma. apply mk_ext. intros ia Hia. f_equal. apply mk_ext. intros mb Hmb.
+  rewrite (pblock_cart_form (col_shell sa ma) (col_shell sb mb) Ha Hb), HG, nblock_form, flatten_block_mk4.
+  rewrite (nseg_col_shell sa ma Hma), (nseg_col_shell sb mb Hmb), !mk1.
+  change (ncomp (col_shell sa ma)) with (ncomp sa). change (ncomp (col_shell sb mb)) with (ncomp sb).
+  cbn [concat]. rewrite app_nil_r. rewrite nth_mk by exact Hia. rewrite mk1. cbn [concat]. rewrite app_nil_r.
+  apply mk_ext. intros ib Hib. symmetry. now apply nentry_col.
+Qed.
+End TwoIndexCart.
+
+(* overlap: Overlap.construct_array_contraction is such a frame kernel *)
+Theorem overlap_pblock_segment_major_cart sa sb : s_sph sa = false -> s_sph sb = false ->
+  pblock K 0 (fadd K) (fmul K) (overlap_block K) (prep K sa) (prep K sb)
+  = concat (mk (nseg sa) (fun ma => mk (ncomp sa) (fun ia => concat (mk (nseg sb) (fun mb =>
+      nth ia (pblock K 0 (fadd K) (fmul K) (overlap_block K) (prep K (col_shell sa ma)) (prep K (col_shell sb mb))) []))))).
+Proof.
+  intros Ha Hb.
+  assert (E : forall s1 s2, pblock K 0 (fadd K) (fmul K) (overlap_block K) (prep K s1) (prep K s2)
+                          = pblock K 0 (fadd K) (fmul K) (kblockf ov_kern) (prep K s1) (prep K s2)).
+  { intros s1 s2. unfold pblock, kblockf. cbn [prep p_shell]. now rewrite overlap_block_kernel. }
+  rewrite E, (pblock_segment_major_cart ov_kern sa sb Ha Hb (fun _ _ => eq_refl)).
+  f_equal. apply mk_ext. intros ma _. apply mk_ext. intros ia _. f_equal. apply mk_ext. intros mb _.
+  now rewrite E.
+Qed.
+
 End P.
 
 (* ------------------------------------------------------------------ *)
